@@ -23,5 +23,10 @@ build_harness() {
     cp "$ROOT/harness/go.sum" "$dir/alt.sum"
     modflag="-modfile=$dir/alt.mod"
   fi
-  ( cd "$ROOT/harness" && "$GO" build $modflag $race -tags verif -o "$out" ./cmd/check )
+  # Non-race builds are static (CGO_ENABLED=0): the binary re-executes itself as the strace crash
+  # victim (C11) and as the chrooted child (C12), where a dynamic loader is neither wanted nor,
+  # inside the jail, available. The race detector needs cgo, so -race builds stay dynamic.
+  local cgo=0
+  [ -n "$race" ] && cgo=1
+  ( cd "$ROOT/harness" && CGO_ENABLED=$cgo "$GO" build $modflag $race -tags verif -o "$out" ./cmd/check )
 }
